@@ -264,6 +264,25 @@ class Checker:
                 violations.remove(x)
             print('UNDECIDED: %d obligation(s) of %s are not proved on this tree (it calls %s, which has no contract); bounded stand-in %s: %s'
                   % (len(obs), short_fn(prog, fn), ', '.join(short_fn(prog, u) for u in unk), res, bound))
+        # bounded stand-in for the part of the statement that is composed on paper from the proved contracts
+        # (whole-input / whole-table claims): run on every check, labelled bounded, never counted as proved
+        fam_name = PROPERTY_BOUNDED.get(pid)
+        if fam_name:
+            cls = getattr(replay_mod, fam_name)
+            pkgdir, src, bound = cls.bounded_source(prog, None)
+            res, out = replay_mod.run_go_test(self.repo, pkgdir, src, os.path.join(wd.path, 'bounded-prop'), timeout=300)
+            self.bounded.append({'scope': 'composition of %s over whole inputs' % pid, 'bound': bound, 'result': res})
+            if res != 'PASS':
+                os.makedirs(os.path.join(VERIF, 'replays'), exist_ok=True)
+                bpath = os.path.join(VERIF, 'replays', '%s-bounded-composition.json' % pid)
+                with open(bpath, 'w') as f:
+                    json.dump({'property': pid, 'obligation': 'bounded check of the composed statement', 'bound': bound, 'test_pkg': pkgdir,
+                               'test_source': src, 'test_result': res, 'test_output': out[-3000:], 'failing_input_found': res == 'FAIL'}, f, indent=1)
+                lines = [l for l in out.split('\n') if 'zz_verif_replay_test.go' in l or 'panic' in l]
+                print('BOUNDED-CHECK-FAILED: %s' % (lines[0].strip()[:400] if lines else res))
+                print('VIOLATION property=%s replay=%s obligation="bounded check of the composed statement (%s)"%s'
+                      % (pid, bpath, bound[:80], '' if res == 'FAIL' else ' no-failing-input-found'))
+                self.extra_violations = 1
         for k in kf_hits:
             print('KNOWN-FINDING: property=%s %s [%s]' % (pid, k[1]['what'], k[0].name))
         os.makedirs(os.path.join(VERIF, 'replays'), exist_ok=True)
@@ -298,7 +317,7 @@ class Checker:
         n_claimed = len(results) - len(kf_hits)
         print('%s: %d functions under contract, %d obligations, %d discharged, %d known findings, %d violations, %.1fs'
               % (pid, len(vcs), n_claimed, len(discharged), len(kf_hits), len(violations), time.time() - self.t0))
-        if violations or vac:
+        if violations or vac or getattr(self, 'extra_violations', 0):
             return 1
         return 0
 
@@ -364,12 +383,14 @@ class Checker:
                 'load_time_s': round(prog.load_time, 2),
             },
             'assumptions': sorted(set(cs.assumptions)) + ASSUMPTIONS,
-            'wall_s': round(time.time() - self.t0, 2), 'violations': len(violations),
+            'wall_s': round(time.time() - self.t0, 2), 'violations': len(violations) + getattr(self, 'extra_violations', 0),
         }
         os.makedirs(os.path.join(VERIF, 'evidence'), exist_ok=True)
         with open(os.path.join(VERIF, 'evidence', pid + '.json'), 'w') as f:
             json.dump(ev, f, indent=1)
 
+
+PROPERTY_BOUNDED = {'C04': 'TokenizerFamily', 'C12': 'TokenizerFamily', 'C15': 'OptionsFamily', 'C14': 'QuoteFamily', 'C16': 'SymbolFamily'}
 
 ASSUMPTIONS = [
     'A0 trusted computing base: go/ssa front end, this engine, the SMT solvers',
